@@ -1,3 +1,4 @@
+import RR.Gen.E2eStatus
 import RR.Gen.E2e
 import RR.Proof.SyncSpecs
 import RR.Proof.HdlcTable
